@@ -21,6 +21,14 @@ def ping_scn(r, sid):
 
 
 def chan_scn(r, sid):
+    if r.random() < 0.15:
+        # free-running bursts: senders that really block on a full bounded channel race with a loop that dispatches at
+        # full speed (both leave the step scheduler for the burst)
+        nt = r.choice([1, 1, 2])
+        threads = {str(t): [{"op": "send_burst", "n": r.choice([4, 6, 8])}] for t in range(1, nt + 1)}
+        return {"id": sid, "kind": "chan", "cap": r.choice([1, 1, 2]), "threads": threads,
+                "loop": [{"op": "dispatch_burst", "need": r.choice([15, 30])}],
+                "schedule": list(range(1, nt + 1)) + [0] * 6, "limit": 1024}
     nt = r.choice([1, 2, 2, 3])
     cap = r.choice([None, None, 0, 1, 2])
     threads = {}
